@@ -46,7 +46,7 @@ func c17Internals(c *Ctx) {
 	if f == nil {
 		return
 	}
-	p1, p2 := ssa.Value(f.Params[1]), ssa.Value(f.Params[2])
+	p1, p2 := paramOf(f, 1), paramOf(f, 2)
 	isP := func(v, p ssa.Value) bool { return strip(v) == p }
 	var direct, viaCompact *ssa.Call
 	var gc *ssa.Call
